@@ -124,7 +124,8 @@ CLAIMS = {
             'Coq proof: stack = inherited ++ open scopes invariant over all schedules + vm_compute correspondence'),
 
     'C04': ('Machine-checked proof (Coq) over M1: kill() requested between any two loop callbacks of ANY run (any program, listener scripts, schedule; no bound) '
-            'returns a result and never raises (Life/LifeBook.v: an invariant over all model operations, re-entrant listeners included); in EVERY run the '
+            'returns a result and never raises (Life/LifeBook.v: an invariant over all model operations, re-entrant listeners included) - also when a '
+            'life-cycle hook raises, for any injected fault (Life/LifeKillTotal.v on LifeEsc); in EVERY run the '
             'bookkeeping of pending requests is never stale (Life/LifePtr.v): _killing / _pausing, when set, is the armed interrupt action, which exists, is '
             'still pending and of the right kind, and an action is armed only while a step is in flight - so between steps nothing is pending and the '
             'configuration in which kill() keeps answering with a dead future is unreachable; a kill armed during a step survives every later request and '
